@@ -14,16 +14,16 @@ import (
 )
 
 type Metric struct {
-	Label  string
-	List   []string // L_M, in code order (index = code)
-	storeValidOnly bool // Enc holds for the codes of the specification's values only
-	Width  int      // number of code bits that can be non-zero
-	Enc    []BitPos // code bit j -> receiver bit; len == Width (valid only when storeOK)
-	W      map[BitPos]Bit
-	Arm    *ast.CaseClause
-	Index  int // source order in Set
-	encOK  bool
-	armPos string
+	Label          string
+	List           []string // L_M, in code order (index = code)
+	storeValidOnly bool     // Enc holds for the codes of the specification's values only
+	Width          int      // number of code bits that can be non-zero
+	Enc            []BitPos // code bit j -> receiver bit; len == Width (valid only when storeOK)
+	W              map[BitPos]Bit
+	Arm            *ast.CaseClause
+	Index          int // source order in Set
+	encOK          bool
+	armPos         string
 }
 
 func (m *Metric) dataBits() map[BitPos]int {
@@ -55,12 +55,12 @@ type SetModel struct {
 
 type GetArm struct {
 	semantic bool
-	Label string
-	Arm   *ast.CaseClause
-	Tag   BV
-	TagOK bool
-	Table map[int]string // code -> string
-	Dup   bool
+	Label    string
+	Arm      *ast.CaseClause
+	Tag      BV
+	TagOK    bool
+	Table    map[int]string // code -> string
+	Dup      bool
 }
 
 type GetModel struct {
